@@ -134,7 +134,53 @@ void harness_walk_loops(void) {
     cif_handler_tp h; int ctxobj; cif_container_tp container;
     make_handler(&h, nondet_unsigned());
     ghost_init();
-    g_ctx = &ctxobj; g_self = NULL;
+    g_ctx = &ctxobj; g_self = NULL;   /* the (container == g_self) bookkeeping clause belongs to the walk_container job */
     int r = walk_loops(&container, &h, &ctxobj);
     if (g_stopped) REACH("stopped"); if (r == CIF_TRAVERSE_SKIP_SIBLINGS) REACH("skip-sib"); if (NAV_GO(r)) REACH("all-loops");
+}
+
+/* ---- walk_container (recursive: child frames are walked through the same contract) ---------------------- */
+void harness_walk_container(void) {
+    cif_handler_tp h; int ctxobj; cif_container_tp container;
+    make_handler(&h, nondet_unsigned());
+    ghost_init();
+    g_self_loops_walks = 0; g_self_frames_got = 0; g_self_nframes = 0;
+    g_ctx = &ctxobj; g_self = &container;
+    int depth = nondet_int(); g_wd = nondet_int(); g_depth_limit = nondet_int();
+    __CPROVER_assume(depth >= 0 && depth < g_depth_limit && g_depth_limit < 1000000 && g_wd >= 0 && g_wd <= 1000000);
+    unsigned f0 = g_frame_calls, l0 = g_loop_calls, fs0 = g_frame_sib;
+    int r = walk_container(&container, depth, &h, &ctxobj);
+    int has_start = depth ? (h.handle_frame_start != NULL) : (h.handle_block_start != NULL);
+    POST(g_self_start == (has_start ? 1u : 0u), "C14 block/frame start exactly once");
+    POST(!g_self_start || (g_self_start_snap_a == f0 && g_self_start_snap_b == l0), "C14 container start before any of its frames and loops");
+    POST(!g_self_end || g_self_start_at_end == (has_start ? 1u : 0u), "C14 container start before container end");
+    POST(g_self_start_ret != CIF_TRAVERSE_CONTINUE ==> (g_frame_calls == f0 && g_loop_calls == l0 && g_self_loops_walks == 0 && g_self_end == 0 && r == g_self_start_ret),
+         "C14 container start answer other than CONTINUE suppresses its content");
+    POST(g_self_loops_walks <= 1, "C14 the loops of a container are walked at most once");
+    POST((g_self_loops_walks == 1 && depth + 1 == g_wd) ==> g_self_frames_at_loops == g_frame_calls, "C14 a container's save frames come before its loops");
+    POST((depth + 1 == g_wd && g_frame_sib == fs0 && g_self_loops_walks == 1) ==> g_frame_calls == f0 + g_self_nframes, "C14 every save frame walked when nobody skips");
+    POST((depth + 1 == g_wd && g_frame_sib != fs0 && NAV_SIB(g_frame_last)) ==> g_self_loops_walks == 1, "C14 SKIP_SIBLINGS from a frame does not suppress the loops (loops are not siblings of frames)");
+    POST((g_stopped && g_self_loops_walks == 0 && g_self_frames_got) ==> g_loop_calls == l0, "C14 END / error from a frame suppresses the loops too");
+    POST(!g_self_end || (g_self_end_snap_b == g_loop_calls && g_self_loops_walks == 1), "C14 container end after all its frames and loops");
+    if (g_self_end) REACH("container-end"); if (g_stopped) REACH("stopped"); if (g_self_loops_walks) REACH("loops-walked"); if (r == CIF_TRAVERSE_SKIP_SIBLINGS) REACH("skip-sib");
+}
+
+/* ---- cif_walk ------------------------------------------------------------------------------------------- */
+void harness_cif_walk(void) {
+    cif_handler_tp h; int ctxobj; int cifobj;
+    make_handler(&h, nondet_unsigned());
+    ghost_init();
+    g_nblocks_got = 0;
+    g_ctx = &ctxobj; g_self = &cifobj; g_wd = nondet_int(); g_depth_limit = nondet_int();
+    __CPROVER_assume(g_wd >= 0 && g_wd <= 1000000 && g_depth_limit >= 0 && g_depth_limit < 1000000);
+    unsigned b0 = g_block_calls, bs0 = g_block_sib;
+    int r = cif_walk((cif_tp *)&cifobj, &h, &ctxobj);
+    POST(g_stopped == 0 ==> r == CIF_OK, "C14 cif_walk returns CIF_OK for every combination of CONTINUE/SKIP answers");
+    POST(g_stopped != 0 ==> r == (g_stop_code == CIF_TRAVERSE_END ? CIF_OK : g_stop_code), "C14 END gives CIF_OK, an error code is returned unchanged");
+    POST(g_self_start == (h.handle_cif_start ? 1u : 0u), "C14 cif_start exactly once");
+    POST(!g_self_start || g_self_start_snap_a == b0, "C14 cif_start before any block");
+    POST(g_self_start_ret != CIF_TRAVERSE_CONTINUE ==> (g_block_calls == b0 && g_self_end == 0), "C14 cif_start answer other than CONTINUE suppresses everything");
+    POST(!g_self_end || (g_self_end_snap_a == g_block_calls && g_block_sib == bs0 && g_block_calls == b0 + g_nblocks), "C14 cif_end only after every block, none of which cut the walk short");
+    POST((g_self_start_ret == CIF_TRAVERSE_CONTINUE && g_nblocks_got && g_block_sib == bs0 && h.handle_cif_end && !g_self_end) ==> g_stopped, "C14 cif_end delivered after an undisturbed walk");
+    if (g_self_end) REACH("cif-end"); if (g_stopped && r != CIF_OK) REACH("error"); if (g_stopped && r == CIF_OK) REACH("end-directive");
 }
